@@ -337,3 +337,79 @@ Definition patterns_outcome (l : list pattern) : list Z :=
       | Ok l' => [0; dig (c_list c_pattern l'); if list_eqb (c_list c_pattern l') (c_list c_pattern l) then 1 else 0]
       end ++ [if forallb (wf_pattern enc dec) l then 1 else 0]
   end.
+
+(* ---- Stage 3 (1): adjustments (Psd/Adjust.v) *)
+From PsdV Require Import Psd.Struct Psd.Adjust.
+Definition astruct_code (k : astruct) : Z :=
+  match k with SBrit => 1 | SBlnc => 2 | SExpA => 3 | SHue => 4 | SSelc => 5 | SPhfl => 6 end.
+Definition c_rows (rows : list (list Z)) : list Z := c_list (c_list c_z) rows.
+Definition c_adj (a : adj) : list Z :=
+  match a with
+  | AStruct k vals => [1; astruct_code k] ++ c_list c_z vals
+  | AMixer vals tail => [2] ++ c_list c_z vals ++ c_bytes tail
+  | ALevels v recs ex => [3; v] ++ c_rows recs ++ c_opt c_z ex
+  | ACurves c =>
+      [4; if cv_is_map c then 1 else 0; cv_version c; cv_count_map c] ++ c_rows (cv_data c) ++
+      c_opt (fun m : Z * list extra_item =>
+               fst m :: c_list (fun it : extra_item => let '(ch, am, vals) := it in
+                                  [ch; if am then 1 else 0] ++ c_list c_z vals) (snd m)) (cv_extra c)
+  | AGradient g =>
+      [5] ++ c_list c_z (gm_head g) ++ [gm_method g] ++ c_list c_z (gm_name g) ++ c_rows (gm_cstops g) ++
+      c_rows (gm_tstops g) ++ c_list c_z (gm_tail g)
+  end.
+Definition adj_outcome (a : Z * adj) : list Z :=
+  let '(pad, x) := a in
+  match write_adj pad x with
+  | Err e => [err_code e]
+  | Ok (b, n) =>
+      [0; n; dig b] ++
+      match reread_adj x b with
+      | Err e => [err_code e]
+      | Ok y => [0; dig (c_adj y); if list_eqb (c_adj y) (c_adj x) then 1 else 0]
+      end ++ [if wf_adj x then 1 else 0]
+  end.
+Definition color_lookup_outcome (units : list Z) (t : terms) (a : Z * Z * Z * dval) : list Z :=
+  let '(pad, ver, dv, d) := a in
+  match write_color_lookup t pad ver dv d with
+  | Err e => [err_code e]
+  | Ok (b, n) =>
+      [0; n; dig b] ++
+      match read_color_lookup units t b with
+      | Err e => [err_code e]
+      | Ok (ver', dv', d', t') =>
+          [0; dig ([ver'; dv'] ++ c_dval d'); if list_eqb ([ver'; dv'] ++ c_dval d') ([ver; dv] ++ c_dval d) then 1 else 0; len t' - len t]
+      end
+  end.
+
+(* ---- Stage 3 (2): vector paths (Psd/Vector.v) *)
+From PsdV Require Import Psd.Vector.
+Definition c_prec (r : prec) : list Z :=
+  match r with
+  | PRec sel vals => [1; sel] ++ c_list c_z vals
+  | PSub sel hdr knots => [2; sel] ++ c_list c_z hdr ++ c_list (fun k : Z * list Z => fst k :: c_list c_z (snd k)) knots
+  end.
+Definition vmask_outcome (a : Z * Z * list prec) : list Z :=
+  let '(version, flags, p) := a in
+  match write_vmask version flags p with
+  | Err e => [err_code e]
+  | Ok (b, n) =>
+      [0; n; dig b] ++
+      match read_vmask b with
+      | Err e => [err_code e]
+      | Ok (v', f', p') =>
+          let c' := [v'; f'] ++ c_list c_prec p' in
+          [0; dig c'; if list_eqb c' ([version; flags] ++ c_list c_prec p) then 1 else 0]
+      end ++ [if (version =? 3) && forallb wf_prec p then 1 else 0]
+  end.
+Definition vscg_outcome (units : list Z) (t : terms) (a : Z * Z * Z * dval) : list Z :=
+  let '(pad, key, ver, d) := a in
+  match write_vscg t pad key ver d with
+  | Err e => [err_code e]
+  | Ok (b, n) =>
+      [0; n; dig b] ++
+      match read_vscg units t b with
+      | Err e => [err_code e]
+      | Ok (key', ver', d', t') =>
+          [0; dig ([key'; ver'] ++ c_dval d'); if list_eqb ([key'; ver'] ++ c_dval d') ([key; ver] ++ c_dval d) then 1 else 0; len t' - len t]
+      end
+  end.
